@@ -56,6 +56,8 @@ def parseCmds (s : String) : List Cmd :=
     | ["bst", k, n] => [.lookupTime (nat! k) (nat! n)]
     | ["bsbad", k] => [.lookupBad (nat! k)]
     | ["noid", v] => [.noId (nat! v)]
+    | ["fs", v] => [.fs (nat! v)]
+    | ["pcmd", v] => [.pluginCmd (nat! v)]
     | _ => [.junk]
 
 def showReply : Reply → String
@@ -76,7 +78,14 @@ def doLine (line : String) : String :=
     let replies := r.1.map showReply
     let delOf := fun (kp : Nat × List Nat) => s!"{kp.1}:{"+".intercalate (kp.2.map toString)}{if r.2.queries.contains kp.1 then ":end" else ""}"
     let del := r.2.delivered.map delOf
-    let mobs := s!"{" ".intercalate replies} | {" ".intercalate del} | alive=1 proc=1"
+    let wild := (sc.splitOn " ;; ").any fun c =>
+      let t := c.trimAscii.toString
+      t.startsWith "open1p" || t.startsWith "opennc" || t.startsWith "openxc" || t.startsWith "stream1p"
+    -- sessions in the other collect modes (one-pass streams / no collection): only "exactly one reply per command, server and
+    -- connection alive" is specified; replies are compared as `reply`, deliveries are not compared
+    let nCmds := ((sc.splitOn " ;; ").filter fun c => c.trimAscii.toString != "").length
+    let mobs := if wild then s!"{" ".intercalate (List.replicate nCmds "reply")} | - | alive=1 proc=1"
+                else s!"{" ".intercalate replies} | {" ".intercalate del} | alive=1 proc=1"
     -- commands sent while the server is still parsing (`!`): a stream that is ended by a later stop / close / window change
     -- may have received only a prefix of its window
     let racing := (sc.splitOn " ;; ").any fun c => c.trimAscii.toString.startsWith "!"
@@ -104,7 +113,9 @@ def doLine (line : String) : String :=
              | none => e)
           else e
         | _ => e)
-    let canon := s!"{parts0.headD ""} | {idel} | {parts0.getD 2 ""}"
+    let wildReplies := " ".intercalate ((fields (parts0.headD "") " ").map fun x =>
+      if x.startsWith "ok" || x == "err" || x == "unknown" then "reply" else x)
+    let canon := if wild then s!"{wildReplies} | - | {parts0.getD 2 ""}" else s!"{parts0.headD ""} | {idel} | {parts0.getD 2 ""}"
     let parts := canon.splitOn " | "
     let ireplies := fields (parts.headD "") " "
     let tail := parts.getD 2 ""
@@ -112,12 +123,13 @@ def doLine (line : String) : String :=
       if impl == "" then "-" else if impl == "PANIC" || impl == "NOCONNECT" then "FAIL:server-not-reachable"
       else if ireplies.any (· == "NOREPLY") then "FAIL:command-without-reply"
       else if ireplies.any (· == "DEAD") || tail != "alive=1 proc=1" then "FAIL:connection-or-server-died"
+      else if wild then (if ireplies.length != nCmds then "FAIL:reply-count" else if ireplies.all (· == "reply") then "ok" else "FAIL:reply-neither-ok-nor-err")
       else if ireplies.length != replies.length then "FAIL:reply-count"
       else if ireplies.any (·.startsWith "OTHER") then "FAIL:reply-neither-ok-nor-err"
       else if (ireplies.map fun x => (x.take 2).toString) != (replies.map fun x => (x.take 2).toString) then "FAIL:reply-inconsistent-with-server-state"
       else "ok"
     let c16 :=
-      if impl == "" then "-" else if c15 != "ok" then "skip:session-broken" else
+      if impl == "" then "-" else if c15 != "ok" then "skip:session-broken" else if wild then "skip:collect-mode-not-modelled" else
       if (idel.splitOn ":early").length > 1 then "FAIL:data-before-announcing-reply"
       else if (idel.splitOn "stray").length > 1 then "FAIL:data-under-unannounced-id"
       else if (idel.splitOn ":diff").length > 1 then "FAIL:message-content-differs-from-file"
@@ -132,7 +144,7 @@ def doLine (line : String) : String :=
       (if replies.any (· == "err") then ["err-reply"] else []) ++ (if replies.any (· == "unknown") then ["unknown-cmd"] else []) ++
       (if r.2.delivered.any (fun d => !d.2.isEmpty) then ["data-delivered"] else []) ++
       (if replies.any (· == "ok:close") then ["close"] else [])
-    s!"{mobs}\tC15={c15};C16={c16}\tC15=ok;C16=ok\t{",".intercalate (tags ++ (if racing then ["racing"] else []) ++ (if (ms.splitOn "*").length > 1 then ["big-file"] else []))}{if racing && impl != "" then "\t" ++ canon else ""}"
+    s!"{mobs}\tC15={c15};C16={c16}\tC15=ok;C16=ok\t{",".intercalate (tags ++ (if wild then ["other-collect-mode"] else []) ++ (if racing then ["racing"] else []) ++ (if (ms.splitOn "*").length > 1 then ["big-file"] else []))}{if (racing || wild) && impl != "" then "\t" ++ canon else ""}"
   | _ => "bad\tC15=FAIL:unparsable;C16=FAIL:unparsable\tC15=ok;C16=ok\t"
 
 end Rem
